@@ -104,6 +104,8 @@ func typeFromExpr(pkg string, e ast.Expr) string {
 		return "?"
 	case *ast.StarExpr:
 		return typeFromExpr(pkg, x.X)
+	case *ast.ArrayType:
+		return "list"
 	case *ast.SelectorExpr:
 		s := exprString(x)
 		switch s {
@@ -236,6 +238,8 @@ func (g *gxFn) typeOf(e ast.Expr) string {
 			return l
 		}
 		return g.typeOf(x.Y)
+	case *ast.SliceExpr:
+		return "list"
 	case *ast.CallExpr:
 		if len(x.Args) == 1 {
 			if t := typeFromExpr(g.pkg, x.Fun); t != "?" && !strings.HasPrefix(t, "struct:") {
@@ -245,6 +249,12 @@ func (g *gxFn) typeOf(e ast.Expr) string {
 		s := exprString(x.Fun)
 		if s == "rand.Uint32" {
 			return "u32"
+		}
+		if s == "slices.IndexFunc" {
+			return "int"
+		}
+		if s == "slices.Clip" {
+			return "list"
 		}
 		if sel, ok := x.Fun.(*ast.SelectorExpr); ok {
 			rt := g.typeOf(sel.X)
@@ -371,6 +381,18 @@ func (g *gxFn) tr(e ast.Expr) string {
 			}
 			return "(negb (" + a + " =? " + b + "))"
 		}
+	case *ast.SliceExpr:
+		if x.Slice3 || (x.Low != nil && x.High != nil) {
+			break
+		}
+		base := g.tr(x.X)
+		if x.High != nil {
+			return "(firstn (Z.to_nat (" + g.tr(x.High) + ")) " + base + ")"
+		}
+		if x.Low != nil {
+			return "(skipn (Z.to_nat (" + g.tr(x.Low) + ")) " + base + ")"
+		}
+		return base
 	case *ast.CallExpr:
 		if len(x.Args) == 1 {
 			if t := typeFromExpr(g.pkg, x.Fun); t != "?" && !strings.HasPrefix(t, "struct:") {
@@ -378,6 +400,25 @@ func (g *gxFn) tr(e ast.Expr) string {
 			}
 		}
 		s := exprString(x.Fun)
+		if s == "slices.Clip" && len(x.Args) == 1 {
+			return g.tr(x.Args[0]) // capacity only
+		}
+		if s == "slices.IndexFunc" && len(x.Args) == 2 {
+			if fl, ok := x.Args[1].(*ast.FuncLit); ok && len(fl.Type.Params.List) == 1 && len(fl.Type.Params.List[0].Names) == 1 {
+				el := fl.Type.Params.List[0].Names[0].Name
+				h := newGxFn(g.pkg, false)
+				body := h.stmts(fl.Body.List, 1)
+				okp := h.fail == ""
+				for _, pn := range h.params {
+					if pn != el+"_isnil" && pn != el+"_IsDest" {
+						okp = false
+					}
+				}
+				if okp {
+					return "(gx_index_func (fun " + el + " : bool * bool => let " + el + "_isnil := fst " + el + " in let " + el + "_IsDest := snd " + el + " in " + body + ") " + g.tr(x.Args[0]) + ")"
+				}
+			}
+		}
 		if s == "rand.Uint32" && len(x.Args) == 0 {
 			return g.param("rand_Uint32", "u32")
 		}
@@ -459,6 +500,9 @@ func coqType(t string) string {
 	if t == "bool" {
 		return "bool"
 	}
+	if t == "list" {
+		return "list (bool * bool)" // a slice of *ProbeResponse as far as the translated code looks at it: (is nil, IsDest)
+	}
 	return "Z"
 }
 
@@ -506,7 +550,7 @@ func (g *gxFn) stmts(list []ast.Stmt, results int) string {
 			if len(body) == 1 {
 				if as, ok := body[0].(*ast.AssignStmt); ok && as.Tok == token.ASSIGN && len(as.Lhs) == 1 && len(as.Rhs) == 1 {
 					if id, ok := as.Lhs[0].(*ast.Ident); ok {
-						if g.locals[id.Name] {
+						if _, isParam := g.ptypes[id.Name]; g.locals[id.Name] || isParam {
 							return "let " + id.Name + " := if " + c + " then " + g.tr(as.Rhs[0]) + " else " + id.Name + " in\n  " + g.stmts(rest, results)
 						}
 					}
@@ -622,6 +666,8 @@ func goExprs(repo string) (map[string]string, error) {
 	fn("sack", "Params.MaxTimeout", false)
 	gxGroup = "GoValidate"
 	fn("common", "TracerouteParams.validateProbe", true)
+	gxGroup = "GoClip"
+	fn("common", "clipResults", false)
 	gxGroup = "GoAlloc"
 	fn("packets", "AllocPacketID", false)
 	fn("icmp", "nextEchoID", false)
@@ -709,13 +755,13 @@ func goExprs(repo string) (map[string]string, error) {
 		})
 	}
 	out := map[string]string{}
-	for _, grp := range []string{"GoTimeout", "GoValidate", "GoAlloc", "GoIds", "GoMerge", "GoRange"} {
+	for _, grp := range []string{"GoTimeout", "GoValidate", "GoClip", "GoAlloc", "GoIds", "GoMerge", "GoRange"} {
 		var b strings.Builder
 		b.WriteString("(** GENERATED on every run by tools/goextract (exprs.go) from /repo.  Do not edit.\n")
 		for _, p := range problems[grp] {
 			b.WriteString("    NOT TRANSLATED: " + p + "\n")
 		}
-		b.WriteString("*)\nFrom Coq Require Import ZArith Bool.\nOpen Scope Z_scope.\nOpen Scope bool_scope.\n\n")
+		b.WriteString("*)\nFrom Coq Require Import ZArith Bool List.\nFrom TR Require Import Lib.GoLists.\nOpen Scope Z_scope.\nOpen Scope bool_scope.\n\n")
 		for _, k := range gxOrder {
 			o := gxDone[k]
 			if o.group != grp {
